@@ -48,7 +48,10 @@ class Grp:
 def rep_lams(g, rng):
     """scalings lambda for Jacobian representatives (lambda^2 x, lambda^3 y, lambda): z = 1, -1, 2, limb-structured, random"""
     K = g.K
-    return [("z=1", None), ("z=-1", K.neg(K.one)), ("z=2", K.from_int(2)), ("z=2^64", K.from_int(1 << 64)), ("z=random", g.lam(rng))]
+    out = [("z=1", None), ("z=-1", K.neg(K.one)), ("z=2", K.from_int(2)), ("z=2^64", K.from_int(1 << 64)), ("z=random", g.lam(rng))]
+    if K is F2:
+        out += [("z=u", (0, 1)), ("z=t*u", (0, rng.randrange(1, Q))), ("z=real", (rng.randrange(1, Q), 0)), ("z=c+c*u", (5, 5))]
+    return out
 
 
 GS = {"g1": None, "g2": None}
@@ -151,6 +154,10 @@ def check_C01(ck):
             exp.append(g.A(C.neg(P)))
             cases.append((cl + "/toaff", "%s toaff %s" % (tag, g.J(P, g.lam(rng)))))
             exp.append(g.A(P))
+            if P is not None and cl.startswith(("generator", "subgroup")):
+                for (rc, lam) in rep_lams(g, rng):
+                    cases.append((cl + "/toaff/" + rc, "%s toaff %s" % (tag, g.J(P, lam)))); exp.append(g.A(P))
+                    cases.append((cl + "/dbl/" + rc, "%s dbl %s" % (tag, g.J(P, lam)))); exp.append(g.A(C.add(P, P)))
         res = ck.run(cases)
         for (c, (impl, _)), want in zip(zip(cases, res), exp):
             ck.expect(impl == want, "grouplaw:" + c[0].split("/")[-1], c[1], impl, want, "chord-tangent law (python affine oracle)")
@@ -459,6 +466,11 @@ def check_C12(ck):
         l[slot] = rng.randrange(1, Q)
         els.append(("single-slot-%d" % slot, O.f12_unflat(l)))
     els.append(("sparse-014", ((F2.rand(rng), F2.rand(rng), (0, 0)), ((0, 0), F2.rand(rng), (0, 0)))))
+    zp = zero_pattern_f12(rng)
+    zres = ck.run([("fe/zero-pattern", "finalexp %s" % O.show_f12(a)) for (_, a) in zp])
+    for (mask, a), (impl, _) in rng.sample(list(zip(zp, zres)), 6 if not thorough else 30):
+        want = O.show_f12(O.f12_pow(a, O.FINAL_EXP))
+        ck.expect(impl == want, "fe=pow", "finalexp zero-pattern %d" % mask, impl[:60], want[:60], "f^(3(q^12-1)/r) on a zero-pattern element")
     cases = [("fe/" + c, "finalexp %s" % O.show_f12(x)) for (c, x) in els]
     res = ck.run(cases)
     for (c, x), (impl, _), case in zip(els, res, cases):
@@ -625,6 +637,9 @@ def check_C05(ck):
                 cases.append(("enc/" + c, "%s %s %s" % (tag, "enc_c" if comp else "enc_u", g.A(P)))); exp.append(want)
                 cases.append(("roundtrip/" + c, "%s %s %s" % (tag, "dec_c" if comp else "dec_u", want))); exp.append(g.A(P))
                 cases.append(("ser_jac/" + c, "%s ser_jac %s %d" % (tag, g.J(P, g.lam(rng)), 1 if comp else 0))); exp.append(want)
+                if c in ("generator", "subgroup") and P is not None:
+                    for (rc, lam) in rep_lams(g, rng):
+                        cases.append(("ser_jac/" + rc, "%s ser_jac %s %d" % (tag, g.J(P, lam), 1 if comp else 0))); exp.append(want)
                 cases.append(("into_(un)compressed/" + c, "%s %s %s" % (tag, "intocomp" if comp else "intouncomp", g.A(P)))); exp.append(want)
         res = ck.run(cases)
         for c, (impl, _), want in zip(cases, res, exp):
@@ -874,6 +889,15 @@ def check_C08(ck):
 def _f2s(a): return F2.show(a)
 
 
+def zero_pattern_f12(rng, patterns=None):
+    """Fq12 elements for every zero/non-zero pattern of the six Fq2 coefficients (63 non-zero patterns)"""
+    out = []
+    for mask in (patterns if patterns is not None else range(1, 64)):
+        cs = [F2.rand(rng) if (mask >> i) & 1 else (0, 0) for i in range(6)]
+        out.append((mask, ((cs[0], cs[1], cs[2]), (cs[3], cs[4], cs[5]))))
+    return out
+
+
 def check_C09(ck):
     rng = ck.rng
     thorough = ck.tier == "thorough"
@@ -929,6 +953,19 @@ def check_C09(ck):
         c0, c1, c4 = r2(), r2(), r2()
         sparse = ((c0, c1, (0, 0)), ((0, 0), c4, (0, 0)))
         cases.append(("fq12/mulby014", "fq12 mulby014 %s %s %s %s" % (S12(a), _f2s(c0), _f2s(c1), _f2s(c4)))); exp.append(S12(O.f12_mul(a, sparse)))
+    gen12 = r12()
+    for (mask, a) in zero_pattern_f12(rng):
+        cases.append(("fq12/zero-pattern/mul", "fq12 mul %s %s" % (S12(a), S12(gen12)))); exp.append(S12(O.f12_mul(a, gen12)))
+        cases.append(("fq12/zero-pattern/mul-rev", "fq12 mul %s %s" % (S12(gen12), S12(a)))); exp.append(S12(O.f12_mul(gen12, a)))
+        cases.append(("fq12/zero-pattern/sq", "fq12 sq %s" % S12(a))); exp.append(S12(O.f12_mul(a, a)))
+        cases.append(("fq12/zero-pattern/inv", "fq12 inv %s" % S12(a))); exp.append("?inv12")
+    gen6 = r6()
+    for mask in range(1, 8):
+        a = tuple(F2.rand(rng) if (mask >> i) & 1 else (0, 0) for i in range(3))
+        cases.append(("fq6/zero-pattern/mul", "fq6 mul %s %s" % (S6(a), S6(gen6)))); exp.append(S6(O.f6_mul(a, gen6)))
+        cases.append(("fq6/zero-pattern/mul-rev", "fq6 mul %s %s" % (S6(gen6), S6(a)))); exp.append(S6(O.f6_mul(gen6, a)))
+        cases.append(("fq6/zero-pattern/sq", "fq6 sq %s" % S6(a))); exp.append(S6(O.f6_mul(a, a)))
+        cases.append(("fq6/zero-pattern/inv", "fq6 inv %s" % S6(a))); exp.append("?inv6")
     for a in sp12[-2:] + [w]:
         for k in (list(range(0, 14)) + [2 ** 32 + 5, 2 ** 64 - 1] if thorough else (0, 1, 2, 3, 6, 11, 12, 13, 2 ** 64 - 1)):
             cases.append(("fq12/frob", "fq12 frob %s %x" % (S12(a), k))); exp.append(S12(O.f12_pow(a, Q ** (k % 12))))
@@ -1288,6 +1325,67 @@ def check_C06(ck):
 
 # ====================================================================== C15 / C16 / C17
 
+def f2_solve_quadratic(a, b, c):
+    """roots in Fq2 of a w^2 + b w + c"""
+    K = F2
+    if K.is_zero(a):
+        return [] if K.is_zero(b) else [K.mul(K.neg(c), K.inv(b))]
+    disc = K.sub(K.mul(b, b), K.mul(K.from_int(4), K.mul(a, c)))
+    sd = K.sqrt(disc)
+    if sd is None:
+        return []
+    i2a = K.inv(K.mul(K.from_int(2), a))
+    return [K.mul(K.add(K.neg(b), sd), i2a), K.mul(K.sub(K.neg(b), sd), i2a)]
+
+
+def sswu2_preimages(x):
+    """all t in Fq2 with sswu2(t).x == x (inverting the SSWU map on E2')"""
+    K, CP, Z = F2, O.E2P, O.SSWU_Z2
+    A, B = CP.a, CP.b
+    d = K.mul(K.neg(A), K.mul(x, K.inv(B)))             # -A x / B
+    ws = []
+    # x = x1(w):  1/(w^2+w) = d - 1
+    c = K.sub(d, K.one)
+    if not K.is_zero(c):
+        ws += f2_solve_quadratic(K.one, K.one, K.neg(K.inv(c)))
+    # x = x2(w) = w x1(w):  w^2 + (1-d) w + (1-d) = 0
+    ws += f2_solve_quadratic(K.one, K.sub(K.one, d), K.sub(K.one, d))
+    ts = []
+    for w in ws:
+        t = K.sqrt(K.mul(w, K.inv(Z)))
+        if t is not None:
+            for tt in (t, K.neg(t)):
+                if O.sswu2(tt)[0] == (x[0] % Q, x[1] % Q):
+                    ts.append(tt)
+    return ts
+
+
+def sswu2_special_outputs(rng, n=3):
+    """inputs t whose SSWU image on E2' has y purely imaginary, y in Fq, or x with a zero component"""
+    out = []
+    tries = 0
+    while tries < 300 and len(out) < 3 * n:
+        tries += 1
+        c = rng.randrange(1, Q)
+        # x = X + c I with Im g(x) = 0:  3 c X^2 + 240 X + (1012 - c^3) = 0   (A' = 240 I, B' = 1012 (1 + I))
+        disc = (240 * 240 - 12 * c * (1012 - c * c * c)) % Q
+        sd = O.fsqrt(disc)
+        if sd is None:
+            continue
+        X = (-240 + sd) * O.finv(6 * c % Q) % Q
+        x = (X, c)
+        gx = O.E2P.rhs(x)
+        if gx[1] != 0:
+            continue
+        y = F2.sqrt(gx)
+        kind = "y-in-Fq" if y[1] == 0 else "y-purely-imaginary"
+        if sum(1 for k, _ in out if k == kind) >= n:
+            continue
+        for t in sswu2_preimages(x)[:2]:
+            out.append((kind, t))
+    return out
+
+
 def check_C15(ck):
     rng = ck.rng
     thorough = ck.tier == "thorough"
@@ -1305,6 +1403,11 @@ def check_C15(ck):
             us += ls
         else:
             us += [(a, b) for a in ls[:6] for b in (1, 3, 2, 0)] + [(0, a) for a in ls[:4]] + [(a, b) for a, b in zip(ls, reversed(ls))]
+        special = []
+        if tag == "g2":
+            special = sswu2_special_outputs(rng, 3 if not thorough else 10)
+            us += [t for (_, t) in special]
+            ck.classes["constructed:sswu-output-special-y"] = len(special)
         # fill every (which candidate is square) x (sign of t) class (the multiplier class is recorded from outputs)
         hist = {}
         need = 3 if not thorough else 25
